@@ -118,6 +118,14 @@ theorem C14_expand_eq_direct_build (T : Tables) (hK : T.Keyed) (id : Nat) (row :
       expandRow T (defaultDepth - 1) id = some (flatMemberIds ms) :=
   expand_eq_build_row T hK 63 id row h3 hd hok
 
+/-- Every list that builds at all — ill-counted ones included, e.g. the bundled rows 313043
+    (master version 6) and 312209 (local 98_0) whose replication runs past the end of the row —
+    flattens to the count-free direct expansion of the flat list (`Spec.loose`: copy, splice
+    Table D rows, never expand a factor). -/
+theorem C14_expand_eq_loose (T : Tables) (hK : T.Keyed) (n : Nat) (ids : List Nat) (t : List Desc)
+    (h : buildD T n ids = .ok t) : loose T n ids = some (flatMemberIds t) :=
+  loose_buildD T hK n ids t h
+
 section NonVacuity
 /-- a two-level table: 300010 = 101000 031001 300011 ; 300011 = 001001 -/
 private def Tx : Tables :=
@@ -125,6 +133,7 @@ private def Tx : Tables :=
     d := fun i => if i = 300010 then some [101000, 31001, 300011] else if i = 300011 then some [1001] else none }
 example : rowOK Tx 2 300010 = true := by decide
 example : expandRow Tx 1 300010 = some [101000, 31001, 1001] := by decide
+example : WellCounted [104000, 31001, 300011] = false ∧ loose Tx 1 [104000, 31001, 300011] = some [104000, 31001, 1001] := by decide
 example : WellCounted [101000, 31001, 300011] = true ∧ WellCounted [102000, 31001, 300011] = false := by decide
 end NonVacuity
 
